@@ -1662,7 +1662,15 @@ class CCodeGenerator:
             va_ptr = self.builder.emit_cast(address, ir.ptr)
         ir_typ = self.get_ir_type(expr.typ)
         # Load the variable argument:
-        value = self.emit(ir.Load(va_ptr, "va_arg", ir_typ))
+        if isinstance(ir_typ, ir.BlobDataTyp):
+            # A struct or union, copy it into a temporary object:
+            value = self.emit(
+                ir.Alloc("va_arg", ir_typ.size, ir_typ.alignment)
+            )
+            value_ptr = self.emit(ir.AddressOf(value, "va_arg_ptr"))
+            self.gen_copy_struct(value_ptr, va_ptr, ir_typ.size)
+        else:
+            value = self.emit(ir.Load(va_ptr, "va_arg", ir_typ))
         size = self.emit(ir.Const(self.sizeof(expr.typ), "size", ir.ptr))
         va_ptr = self.emit(ir.add(va_ptr, size, "incptr", ir.ptr))
         self.emit(ir.Store(va_ptr, valist_ptrptr))
